@@ -2,10 +2,11 @@
 // SPDX-License-Identifier: Apache-2.0
 // Copyright (c) A5 contributors
 
-use crate::coordinate_systems::{Face, LonLat};
+use crate::coordinate_systems::{Cartesian, Face, LonLat};
 use crate::core::constants::PI_OVER_5;
 use crate::core::coordinate_transforms::{
-    face_to_ij, from_lon_lat, normalize_longitudes, to_lon_lat, to_polar,
+    face_to_ij, from_lon_lat, normalize_longitudes, to_cartesian, to_lon_lat, to_polar,
+    to_spherical,
 };
 use crate::core::hilbert::{ij_to_s, s_to_anchor};
 use crate::core::origin::{find_nearest_origin, quintant_to_segment, segment_to_quintant};
@@ -52,13 +53,40 @@ pub fn lonlat_to_cell(lonlat: LonLat, resolution: i32) -> Result<u64, String> {
     let n = 25;
     let scale = 50.0 / 2.0_f64.powi(hilbert_resolution);
 
+    // Lay the spiral out in the plane tangent to the sphere at the point, rather than in raw
+    // lon/lat degrees: there its east-west extent shrinks with cos(latitude) and the search
+    // degenerates to a north-south line towards the poles
+    let p = to_cartesian(from_lon_lat(lonlat));
+    let axis = if p.z().abs() < 0.9 {
+        Cartesian::new(0.0, 0.0, 1.0)
+    } else {
+        Cartesian::new(1.0, 0.0, 0.0)
+    };
+    let cross = |a: Cartesian, b: Cartesian| {
+        Cartesian::new(
+            a.y() * b.z() - a.z() * b.y(),
+            a.z() * b.x() - a.x() * b.z(),
+            a.x() * b.y() - a.y() * b.x(),
+        )
+    };
+    let east = cross(axis, p);
+    let east_length = (east.x() * east.x() + east.y() * east.y() + east.z() * east.z()).sqrt();
+    let east = Cartesian::new(
+        east.x() / east_length,
+        east.y() / east_length,
+        east.z() / east_length,
+    );
+    let north = cross(p, east);
+
     for i in 0..n {
-        let r = (i as f64 / n as f64) * scale;
-        let coordinate = LonLat::new(
-            lonlat.longitude() + (i as f64).cos() * r,
-            lonlat.latitude() + (i as f64).sin() * r,
+        let r = ((i as f64 / n as f64) * scale).to_radians();
+        let (de, dn) = ((i as f64).cos() * r, (i as f64).sin() * r);
+        let offset_point = Cartesian::new(
+            p.x() + de * east.x() + dn * north.x(),
+            p.y() + de * east.y() + dn * north.y(),
+            p.z() + de * east.z() + dn * north.z(),
         );
-        samples.push(coordinate);
+        samples.push(to_lon_lat(to_spherical(offset_point)));
     }
 
     // Deduplicate estimates
